@@ -193,6 +193,9 @@ def gen(rng, tier):
         cases.append(["semc %d %d %d" % (p, c, k if tier == "quick" else k * 20)])
     for w in (1, 2, 5):
         cases.append(["cond %d %d" % (w, 20 if tier == "quick" else 400)])
+    # the same ThreadGroup started and joined three times (each round is one hand-over of the model; finished flags are sticky)
+    for n in ([1, 4] if tier == "quick" else [1, 2, 4, 7]):
+        cases.append(["thr grp3 %d 1" % n])
     # copies of started function threads (join and finished() through the copy, original destroyed first in `cpd`)
     for n in ([1, 3] if tier == "quick" else [1, 2, 3, 5, 8]):
         cases.append(["thr cpy %d %d" % (n, 3 if tier == "quick" else 40), "thr cpd %d %d" % (n, 3 if tier == "quick" else 40), "thr cpj %d 2" % n,
